@@ -8,12 +8,16 @@ import (
 	"github.com/google/jsonschema-go/jsonschema"
 
 	"verif/internal/fw"
+	"verif/internal/gen"
 )
 
 // compileDoc sends a schema document through Schema.UnmarshalJSON and Resolve, guarded.
 // ok=false means the call panicked / overran (already reported as a violation).
 func compileDoc(c *fw.Case, text string, opts *jsonschema.ResolveOptions) (rs *jsonschema.Resolved, err error, ok bool) {
 	var s jsonschema.Schema
+	if c.R.IntN(8) == 0 && json.Valid([]byte(text)) {
+		text = gen.Relayout(c.R, text) // insignificant whitespace is free (RFC 8259)
+	}
 	ok = c.CallChecked("Unmarshal+Resolve", map[string]any{"schema": json.RawMessage(text)}, func() {
 		if err = json.Unmarshal([]byte(text), &s); err != nil {
 			err = fmt.Errorf("unmarshal: %w", err)
